@@ -62,6 +62,8 @@ def f64(xs):
 
 def canon_rat(v, maxden=5000):
     """canonical rational of a float64 quotient counter/norm (tolerance 1e-12)"""
+    if not np.isfinite(v):
+        return f"float:{float(v)!r}"
     fr = Fr(float(v)).limit_denominator(maxden)
     if abs(float(fr) - float(v)) > 1e-12 * max(1.0, abs(float(v))):
         return f"float:{float(v)!r}"
@@ -911,8 +913,10 @@ def run(ctx):
     def fr32(a):
         return [None if np.isnan(v) else Fr(float(v)) for v in a]
 
+    greqs, gimpl, gfaith = [], [], []
+
     for c in range(400 if quick else 4000):
-        n = rng.randrange(3, 14 if rng.random() < 0.8 else 30)
+        n = rng.randrange(3, 12 if rng.random() < 0.8 else 20)
         xs = nprng.rand(n).astype(np.float32)
         kind = rng.choice(["uniform", "eighths", "scaled", "ramp"])
         if kind == "eighths":
@@ -925,8 +929,9 @@ def run(ctx):
             xs = (np.float32(0.3) * ts + xs * np.float32(2.0) ** -20).astype(np.float32)
         A = np.zeros((n, n), dtype=np.int8)
         K._visibility_relations_no_missingvalues(xs, ts, n, A)
-        rreqs.append(f"nvgR {n} {enc_vals(fr32(xs))} {enc_vals(fr32(ts))}")
-        rimpl.append(enc_mat(A))
+        greqs.append(f"nvgR {n} {enc_vals(fr32(xs))} {enc_vals(fr32(ts))}")
+        gimpl.append(enc_mat(A))
+        gfaith.append(f"faithful {n} {enc_vals(fr32(xs))} {enc_vals(fr32(ts))}")
         E = np.zeros((n, n), dtype=np.int8)
         for i in range(n):
             for j in range(i + 1, n):
@@ -946,10 +951,31 @@ def run(ctx):
         xn[np.array(m)] = np.nan
         A2 = np.zeros((n, n), dtype=np.int8)
         K._visibility_relations_missingvalues(xn, ts, n, A2, np.array(m, dtype=bool))
-        rreqs.append(f"nvgR_mv {n} {enc_vals(fr32(xn))} {enc_vals(fr32(ts))} {enc_bools(m)}")
-        rimpl.append(enc_mat(A2))
+        greqs.append(f"nvgR_mv {n} {enc_vals(fr32(xn))} {enc_vals(fr32(ts))} {enc_bools(m)}")
+        gimpl.append(enc_mat(A2))
+        gfaith.append(f"faithful {n} {enc_vals(fr32(xn))} {enc_vals(fr32(ts))}")
+    # Obligation where the theorems speak: on series that are Faithful (decided in Lean) the
+    # float model is the exact model is the geometric criterion, so *any* correct kernel must
+    # agree.  On the other generic series (float32 ties between distinct slopes) agreement
+    # of the compiled code with the binary32 model is recorded in the evidence only: an
+    # implementation computing more accurately would differ there without violating C14.
+    gf = common.driver(ctx.pid, gfaith)
+    for r, a, f in zip(greqs, gimpl, gf):
+        if f == "1":
+            rreqs.append(r)
+            rimpl.append(a)
+            ctx.count("float32:generic-faithful")
+    nf = [i for i, f in enumerate(gf) if f != "1"]
+    nmodel = common.driver(ctx.pid, [greqs[i] for i in nf])
+    nbad = [i for i, mdl in zip(nf, nmodel) if mdl != gimpl[i]]
+    ctx.extra["float32_model_on_non_faithful_data"] = {
+        "requests": len(nf), "agree": len(nf) - len(nbad),
+        "first_disagreements": [greqs[i][:300] for i in nbad[:3]]}
+    if nbad:
+        print(f"  note: compiled natural kernels and the binary32 model differ on {len(nbad)}/{len(nf)} "
+              "generic float32 series that are not order-faithful (outside the exact quantifier)")
     ctx.correspond("Lean float32 model kernelNR rndF32 == compiled natural kernels "
-                   "(exact series and generic float32 data)", rreqs, rimpl)
+                   "(exact series and order-faithful generic float32 data)", rreqs, rimpl)
     ctx.extra["float32_model_calls_compared"] = len(rreqs)
 
 
